@@ -12,7 +12,7 @@ SHIMS = {"tools/flow/export_verif.go": "harness/c18/shims/flow_export.go.txt"}
 TRUSTED = [
     "Coq 8.16.1 kernel; no axioms (Print Assumptions: closed under the global context)",
     "hand-written Gallina model of tools/flow run.go (runLoop, markReady, updateValue, updateTaskValue, updateTaskResults), the part of tasks.go the run loop depends on (initTasks/getTask/addDep: task discovery, dependency accumulation, value refresh) and cycle.go (checkCycle/isCyclic), at the granularity of one step per dispatch / completion / cancellation",
-    "the dependency analysis itself (tasks.go markTaskDependencies + internal/core/dep) is NOT modelled: the generator's ground-truth dependency graph stands for it, and the correspondence compares Task.Dependencies() with that ground truth after every controller update",
+    "FLOW cases: the generator's ground-truth dependency graph stands for the dependency analysis (tasks.go markTaskDependencies + internal/core/dep) and Task.Dependencies() is compared with it after every update; FLOWC/FLOWX cases: the analysis is MODELLED (Flow/Discover.v: task-graph configurations, discover/tasks_at, soundness proved, completeness not) and the model discovers tasks and dependencies from the configuration itself",
     "correspondence: extracted OCaml model (ExtrOcamlBasic only; nat kept as Coq datatype) replays the observed label sequence and must reproduce every observation; Go harness built from /repo working tree via go build -overlay (shim tools/flow/export_verif.go re-exports checkCycle and the cycleError test)",
     "OCaml driver ocaml/c18_driver.ml (parsing, sorting of printed sets), Go harness harness/c18 (workflow generator and CUE rendering, instrumented RunnerFunc, scheduler, canonical comparison of Controller.Value() with initial & results)",
 ]
@@ -56,7 +56,7 @@ def coq_labels(labels):
 def vm_crosscheck(ctx, exe, cases):
     """Guard the extraction and the OCaml driver: the same acceptance questions are
     answered by the extracted model and by vm_compute inside Coq."""
-    flows = [c for c in cases if c.startswith("FLOW")]
+    flows = [c for c in cases if c.startswith("FLOW ")]
     step = max(1, len(flows) // 14)
     qs = []
     for c in flows[::step][:14]:
@@ -147,6 +147,7 @@ def run(ctx):
     traces = 0
     mismatches = 0
     samples = []
+    cfg_traces = collections.Counter()
     for idx, (c, i, m) in enumerate(zip(cases, impl, model)):
         k = c.split(" ", 1)[0]
         kinds[k] += 1
@@ -157,6 +158,10 @@ def run(ctx):
             ends[mm.group(1) if mm else "none"] += 1
             if i == m:
                 traces += 1
+        if k in ("FLOWC", "FLOWX"):
+            # configuration-driven cases: the model DISCOVERS tasks and dependencies (Flow/Discover.v)
+            if i == m:
+                cfg_traces[k] += 1
         if k == "SKIP":
             continue
         if c not in distinct:
@@ -206,6 +211,7 @@ def run(ctx):
         "generator_stats": stats,
         "vm_compute_crosscheck": vm,
         "traces_validated_against_impl": traces,
+        "config_driven_traces_validated_against_impl": dict(cfg_traces),
         "mismatches": mismatches,
         "harness_build_s": hsecs,
         "proof": {k: v for k, v in proof.items() if k.startswith("coqchk") or k in ("make_s",)},
@@ -215,7 +221,7 @@ def run(ctx):
 
 MANIFEST = {
     "category": "proof",
-    "text": "Coq theorems over ALL executions (any completion order, any outcomes, cancellation) of an executable, implementation-faithful model of tools/flow's controller (runLoop, markReady, updateValue, updateTaskValue, updateTaskResults, the task bookkeeping of initTasks/getTask/addDep, checkCycle): a task is dispatched only after every task it refers to (late references included) completed successfully, and it sees a configuration containing all results so far; every task is dispatched and completes at most once; in an acyclic workflow without failure no state is stuck before all tasks ran (a measure drops by one per event, exactly 2*|tasks| events); after a failure or cancellation nothing starts and transitive dependants of a failed task never start; the deadlock branch is unreachable for every workflow because checkCycle reports an error iff the dependency graph has a cycle (fuel always sufficient); the merged results are exactly the successful completions, so the final configuration does not depend on completion order. The model is tied to /repo by replaying, for generated workflows compiled to CUE and PRNG-chosen / exhaustively enumerated completion orders with injected failures and cancellations, the observed event trace (task states and Task.Dependencies() after every update, dependency results visible at dispatch, outcome of Run, Controller.Value() == initial & results) through the extracted model with the generator's ground-truth dependency graph; timeouts count as deadlock.",
+    "text": "Coq theorems over ALL executions (any completion order, any outcomes, cancellation) of an executable, implementation-faithful model of tools/flow's controller (runLoop, markReady, updateValue, updateTaskValue, updateTaskResults, the task bookkeeping of initTasks/getTask/addDep, checkCycle): a task is dispatched only after every task it refers to (late references included) completed successfully, and it sees a configuration containing all results so far; every task is dispatched and completes at most once; in an acyclic workflow without failure no state is stuck before all tasks ran (a measure drops by one per event, exactly 2*|tasks| events); after a failure or cancellation nothing starts and transitive dependants of a failed task never start; the deadlock branch is unreachable for every workflow because checkCycle reports an error iff the dependency graph has a cycle (fuel always sufficient); the merged results are exactly the successful completions, so the final configuration does not depend on completion order. The model is tied to /repo by replaying, for generated workflows compiled to CUE and PRNG-chosen / exhaustively enumerated completion orders with injected failures and cancellations, the observed event trace (task states and Task.Dependencies() after every update, dependency results visible at dispatch, outcome of Run, Controller.Value() == initial & results) through the extracted model with the generator's ground-truth dependency graph; timeouts count as deadlock. Extension: the dependency discovery of tasks.go (findRootTasks/getTask/tagChildren/findImpliedTask/markTaskDependencies with dep.Recurse and the cycle marker) is modelled for task-graph configurations (references into tasks and sub-fields, through non-task fields, to enclosing structs containing tasks, into tasks that appear after a Fill); proved: everything discovered is justified by a reference chain, the workflow of a run (wf_of_run) reproduces exactly the accumulated discoveries, hence dispatch-after-discovered-dependencies for configurations; tied by FLOWC/FLOWX cases in which the model gets only the configuration.",
     "note": "Trusted: Coq kernel; the hand-written model of run.go/cycle.go and of the bookkeeping part of tasks.go; the generator's ground-truth dependency rules standing for tasks.go markTaskDependencies + internal/core/dep (compared with Task.Dependencies() on every update, not proved); extraction (ExtrOcamlBasic, guarded by a vm_compute cross-check) and the OCaml/Go drivers. Not modelled: Service/deferred tasks and ForkRunLoop, InferTasks, IgnoreConcrete, tasks that vanish from the configuration, tasks that do not Fill, UpdateFunc errors; final_config_order_free is about the multiset of merged results (order-insensitivity of unification itself is C01). Side conditions wf_known/wf_trig/wf_closed/acyclic are decidable and evaluated on every generated workflow.",
     "technique": "Coq proof (14-clause invariant preserved by every step, induction over executions, pigeonhole argument for deadlock freedom, correctness of the fuelled on-stack DFS) + extracted-model trace acceptance against tools/flow under controlled completion orders",
 }
